@@ -1097,6 +1097,14 @@ def draw_ops(rng, spec, profile):
     alphabet += ['restart'] * profile.get('w_restart', 2)
     if cls in ('Union', 'NautilusBound'):
         alphabet += ['write0', 'update_restart'] * profile.get('w_update', 1)
+    if cls in ('Union', 'NautilusBound') and profile.get(
+            'w_update', 0) and rng.random() < 0.25:
+        # write early, consume whole refills, update, read: the cache has the
+        # same length as when it was written, but other content
+        ops += [['sample', rng.choice([1, 7, 100, 950])], ['write0'],
+                ['sample', 1000 * rng.choice([1, 2, 3])],
+                ['update_restart'], ['sample', rng.choice([100, 1500])]]
+        return ops
     for _ in range(n):
         a = rng.choice(alphabet)
         if a == 'split_t':
@@ -1109,8 +1117,8 @@ def draw_ops(rng, spec, profile):
         elif a == 'trim':
             ops.append(['trim', rng.choice([1e3, 10.0, 2.0, 1.0, 0.5])])
         elif a == 'sample':
-            ops.append(['sample', rng.choice([1, 7, 100, 100, 950, 1500,
-                                              3000])])
+            ops.append(['sample', rng.choice([1, 7, 100, 100, 950, 1000,
+                                              1500, 2000, 3000])])
         elif a == 'sample_pool':
             ops.append(['sample_pool', rng.choice([10, 500, 12000]),
                         rng.choice([1, 2, 3, 8]), rng.randrange(2**31)])
